@@ -46,13 +46,24 @@ PREBUILD = [gen_helpers]
 COARS = {0: (1, 1, 1), 1: (0, 1, 1), 2: (1, 0, 1), 3: (1, 1, 0), 4: (1, 0, 0), 5: (0, 1, 0), 6: (0, 0, 1)}
 
 
-def make_case(rng, sc, cplx):
+def make_case(rng, sc, cplx, utm=None):
     import emg3d
     co = COARS[sc]
     ccells = [rng.randint(1, 2) for _ in range(3)]
     cells = [2 * c if f else rng.randint(2, 3) for c, f in zip(ccells, co)]
-    hs = [np.array([K.dy_pos(rng) for _ in range(n)]) for n in cells]
     origin = tuple(K.dy(rng) for _ in range(3))
+    if utm is None:
+        utm = rng.random() < 0.4
+    if utm:
+        # projected-coordinate style: large equal x/y origin, EQUAL x/y cell counts
+        # but different (metre-scale) widths -- exposes any reuse of one
+        # direction's interpolation weights for another and any relative
+        # tolerance on absolute coordinates
+        if co[0] == co[1]:
+            cells[1] = cells[0]
+        big = rng.choice([2.0**21, 2.0**20 * 3, 2.0**22])
+        origin = (big, big, K.dy(rng))
+    hs = [np.array([K.dy_pos(rng) / (4.0 if utm else 1.0) for _ in range(n)]) for n in cells]
     grid = emg3d.TensorMesh(hs, origin)
     shape = tuple(cells)
     dt = complex if cplx else float
@@ -188,7 +199,8 @@ def correspondence(ctx):
     n = 42 if ctx.thorough else 14
     cases = []
     for i in range(n):
-        cases.append(make_case(rng, i % 7, cplx=(i % 2 == 0) if i < 14 else rng.random() < 0.5))
+        cases.append(make_case(rng, i % 7, cplx=(i % 2 == 0) if i < 14 else rng.random() < 0.5,
+                               utm=((i // 7) % 2 == 1)))
     texts, impls = [], []
     dis = []
     for i, c in enumerate(cases):
@@ -257,8 +269,13 @@ def search_case(rng, sc, cplx, seed=None):
     co = COARS[sc]
     ccells = [int(npr.randint(1, 4)) for _ in range(3)]
     cells = [2 * c if f else int(npr.randint(2, 5)) for c, f in zip(ccells, co)]
-    hs = [npr.uniform(0.5, 3.0, n) for n in cells]
-    grid = emg3d.TensorMesh(hs, (0, 0, 0))
+    utm = npr.uniform() < 0.4
+    if utm and co[0] == co[1]:
+        cells[1] = cells[0]
+    # dyadic widths/origin at large coordinates so that node positions are exact
+    hs = [npr.randint(2, 13, n) / 4.0 if utm else npr.uniform(0.5, 3.0, n) for n in cells]
+    origin = (2.0**21, 2.0**21, -50.0) if utm else (0, 0, 0)
+    grid = emg3d.TensorMesh(hs, origin)
     shape = tuple(cells)
     aniso = int(npr.randint(0, 4))
     kw = dict(property_x=npr.uniform(0.1, 5, shape), mu_r=npr.uniform(0.5, 2, shape))
@@ -270,7 +287,7 @@ def search_case(rng, sc, cplx, seed=None):
     freq = 1.0 if cplx else -1.0
     sfield = emg3d.Field(grid, frequency=freq)
     vmodel = emg3d.models.VolumeModel(model, sfield)
-    base = dict(sc=sc, complex=cplx, shape=list(shape), np_seed=seed,
+    base = dict(sc=sc, complex=cplx, shape=list(shape), np_seed=seed, origin=list(origin),
                 aniso=['isotropic', 'HTI', 'VTI', 'triaxial'][aniso])
 
     def interior(g):
